@@ -166,6 +166,9 @@ def reference_model(pm: ProgramModel, mb: ModelBuilder) -> AObj:
     mb.relation(srch, [d, e, g], 1, 2)                   # [1..2]
     mb.relation(srch, [h, i], 2, 2)                      # [2]
     mb.relation(a, [F("Deep1"), F("Deep2")], 0, -1)      # [0..*]
+    mb.relation(b, [F("Dead1"), F("Dead2")], 0, 0)       # [0]
+    mb.relation(b, [F("Zero", card=(0, 0))], 0, 1)       # feature cardinality [0..0]
+    mb.relation(c, [F("One1"), F("One2"), F("One3")], 1, -1)   # [1..*]
     for name, val in (("count", 3), ("ratio", 2.5), ("title", "hello world"), ("on", True), ("off", False),
                       ("items", [1, 2, "x"]), ("nested", {"k": 1, "z": "w"}), ("marker", None), ("neg", -4)):
         pay._f["attributes"].append(mb.attribute(name, val, pay))
